@@ -264,6 +264,29 @@ def search(ctx, rng, enlarged):
                                             SNIP_APPROX % dict(meth=meth, n=n, prof=pn, dr=0.5, order=order, env=env, fn=APPROX[meth]),
                                             dict(method=meth, n=n, profile=pn)))
     ac.cleanup()
+    # ---- operation histories: the operators the implementation uses in ANY state -----------
+    # (basis_dir files left by earlier calls of other degrees / orders / regularisations / weights,
+    #  cache_cleanup, fresh processes loading what an earlier process saved)
+    from concurrent.futures import ThreadPoolExecutor
+    from props import _algebra_hist as ah
+    H = ah.gen_histories(rng, ctx.quick and not enlarged)
+    with ThreadPoolExecutor(max_workers=8) as ex:
+        R = list(ex.map(lambda h: ah.run_history(h[1]), H))
+    for (fam, hist), res in zip(H, R):
+        n_ops = sum(len(sg['ops']) for sg in hist)
+        for r in res:
+            tol = RTOL_COND * max(r['cond'], 1.0)
+            n_eval += 1
+            distinct.add(('history', fam, json.dumps(r['probe'][:-1]), len(hist), n_ops))
+            worst['history-' + fam] = max(worst.get('history-' + fam, 0.0), r['deviation'] / tol)
+            if not r['deviation'] <= tol:
+                hits.append(Hit('exact-roundtrip-after-history', 'C03:history:%s' % fam,
+                                '%s: after a history of %d calls in %d process(es) (basis_dir, other degrees/orders/regularisations, '
+                                'cache_cleanup) the round trip %r deviates by %.2e (tolerance %.2e) %s'
+                                % (fam, n_ops, len(hist), r['probe'], r['deviation'], tol, r.get('error', '')),
+                                ah.replay_snippet(hist, RTOL_COND), dict(history=hist, probe=r['probe'], deviation=r['deviation'])))
+                break
+    samples.append(dict(histories=len(H), example=H[0][1] if H else None))
     return hits, n_eval, len(distinct), worst, samples
 
 
